@@ -40,7 +40,11 @@ def test_rangemodel():
     check("only-sep", p("..."), M.OUTSIDE)
     check("reversed", p("5...1"), M.OUTSIDE)
     check("float-in-int", p("1.5"), M.OUTSIDE)
-    check("leading-zero", p("05"), M.OUTSIDE)
+    check("leading-zero", p("05"), [(5, 5)])
+    check("leading-zeros-in-both-limits", p("01...012"), [(1, 12)])
+    check("hex-with-leading-zero", p("0x0a"), [(10, 10)])
+    check("octal-prefix", p("0o17"), M.OUTSIDE)
+    check("digit-group", p("1_0"), M.OUTSIDE)
     check("prefix", p("u'a'"), M.OUTSIDE)
     check("unknown-name", p("abc"), M.OUTSIDE)
     check("two-limits", p("1 2"), M.OUTSIDE)
